@@ -26,6 +26,12 @@ def run(ctx):
                           env={"VERIF_TRACE": t2, "VERIF_HISTORIES": 120 if ctx.thorough else 30}, timeout=600)
     vlib.absorb(ctx, rep, "ringpool")
     reject(ctx, "ringpool", vlib.validate_trace(ctx, "PoolsTrace", "PoolsTrace.cfg", t2, name="trace-ringpool"))
+    # the consequence the property names: data held in a connection's buffers (and handed to the application within a
+    # callback) is never overwritten through other buffers -- real engines, content checked at every reader operation
+    # and again at the end of the callback (TrIn), outbound content at the peers (TrOut)
+    from checks import system
+    ts = system.record(ctx, "sys")
+    system.validate(ctx, ts, ["TrIn", "TrOut"], "pooled memory under real connections")
     ctx.samples.append(open(t1).read().splitlines()[1:6])
     ctx.assumptions += ["TLC 1.8.0", "the harness keeps every backing array alive so addresses identify arrays", "sizes up to 2^20 (class arithmetic up to 2^31 is C20's table)",
                         "log order: Get is logged after it returns, Put before it is called, so logged ownership intervals are subsets of the real ones"]
